@@ -441,39 +441,8 @@ func ruleObject(m *evalModel, r *Report, e *Engine, reg map[*ssa.BasicBlock]bool
 	if fn := le("(LispError).Is"); fn == nil {
 		r.bad("C03.object", nil, "LispError.Is", token.NoPos, "method Is(error) bool is gone")
 	}
-	// 3. NewLispError: the LispError case writes only the cursor
-	if fn := le("NewLispError"); fn != nil {
-		written := map[string]bool{}
-		for _, b := range fn.Blocks {
-			for _, in := range b.Instrs {
-				if st, ok := in.(*ssa.Store); ok {
-					if fa, ok := st.Addr.(*ssa.FieldAddr); ok {
-						if al, ok := fa.X.(*ssa.Alloc); ok && al.Comment != "complit" {
-							written[fieldName(fa.X.Type(), fa.Field)] = true
-						}
-					}
-				}
-			}
-		}
-		okW := written["cursor"] && len(written) == 1
-		r.check(okW, "C03.object", fn, "re-positioning an existing LispError", fn.Pos(), "writes only the cursor of its copy", fmt.Sprintf("fields written on the existing error: %v", keysOf(written)))
-		// the default case builds LispError{err: err, cursor: ...} with err = the parameter
-		okNew := false
-		for _, b := range fn.Blocks {
-			for _, in := range b.Instrs {
-				if st, ok := in.(*ssa.Store); ok {
-					if fa, ok := st.Addr.(*ssa.FieldAddr); ok && fieldName(fa.X.Type(), fa.Field) == "err" {
-						if al, ok := fa.X.(*ssa.Alloc); ok && al.Comment == "complit" && st.Val == ssa.Value(fn.Params[0]) {
-							okNew = true
-						}
-					}
-				}
-			}
-		}
-		r.check(okNew, "C03.object", fn, "wrapping a new object", fn.Pos(), "stores the object it was given", "NewLispError does not store the object it was given")
-	} else {
-		r.undecided("C03.object", nil, "NewLispError", token.NoPos, "function no longer resolves")
-	}
+	// 3. NewLispError: an existing LispError is copied and only re-positioned; any other object is stored as given
+	newLispErrorRule(w, r, "C03.object")
 	// 4. throw
 	if fn := w.Fn("lib/core", "throw"); fn != nil {
 		okErr, okWrap := false, false
@@ -611,6 +580,147 @@ func rulePropagate(m *evalModel, r *Report) {
 		}
 	}
 	r.floor("C03.propagate", "error returns fed by nested evaluation", n, 8)
+	// the error returned under a failed check is the error that was checked
+	nc := 0
+	var checkedIn []*ssa.Function
+	inSet := map[*ssa.Function]bool{}
+	for _, fn := range m.evalFuncs() {
+		checkedIn = append(checkedIn, fn)
+		inSet[fn] = true
+	}
+	for _, fn := range m.w.Funcs {
+		if !inSet[fn] && runtimePkg(fnPkgPath(fn)) && !isTestFunc(m.w, fn) && fn.Signature.Results().Len() > 0 && isErrorType(fn.Signature.Results().At(fn.Signature.Results().Len()-1).Type()) {
+			checkedIn = append(checkedIn, fn)
+		}
+	}
+	for _, fn := range checkedIn {
+		for _, rt := range errorReturns(fn) {
+			ret := rt[0].(*ssa.Return)
+			ev, _ := rt[2].(ssa.Value)
+			if ev == nil || isNilConst(ev) || !isErrorType(ev.Type()) {
+				continue
+			}
+			checked := nearestCheckedError(ret.Block())
+			if checked == nil {
+				continue
+			}
+			nc++
+			if !derivesFromErr(ev, checked, 0) && !carriesExistingError(ev, 0) {
+				r.ok("C03.propagate", fn, "error returned after a failed check of "+describeVal(m.e, checked, 0), ret.Pos(), "a newly constructed error that replaces the checked one")
+				continue
+			}
+			r.check(derivesFromErr(ev, checked, 0), "C03.propagate", fn, "error returned after a failed check of "+describeVal(m.e, checked, 0), ret.Pos(), "the checked error itself (possibly positioned or wrapped)", "the branch taken because "+describeVal(m.e, checked, 0)+" is an error returns a different error ("+describeVal(m.e, ev, 0)+"): the error that actually occurred is lost")
+		}
+	}
+	r.floor("C03.propagate", "error returns under a failed error check", nc, 10)
+}
+
+// nearestCheckedError: the error value whose non-nil test is the innermost branch condition the block is under.
+func nearestCheckedError(b *ssa.BasicBlock) ssa.Value {
+	for d := b.Idom(); d != nil; d = d.Idom() {
+		iff := blockIf(d)
+		if iff == nil {
+			continue
+		}
+		bo, ok := iff.Cond.(*ssa.BinOp)
+		if !ok || (bo.Op != token.NEQ && bo.Op != token.EQL) {
+			continue
+		}
+		var x ssa.Value
+		switch {
+		case isNilConst(bo.Y) && isErrorType(bo.X.Type()):
+			x = bo.X
+		case isNilConst(bo.X) && isErrorType(bo.Y.Type()):
+			x = bo.Y
+		default:
+			continue
+		}
+		nonNilEdge := 0
+		if bo.Op == token.EQL {
+			nonNilEdge = 1
+		}
+		if edgeDominates(d, nonNilEdge, b) {
+			return x
+		}
+		if edgeDominates(d, 1-nonNilEdge, b) {
+			return nil // under the no-error edge of the innermost check: nothing to say
+		}
+	}
+	return nil
+}
+
+// derivesFromErr: v is x, or x positioned (NewLispError), boxed or wrapped (fmt.Errorf with x as an operand).
+func derivesFromErr(v, x ssa.Value, depth int) bool {
+	if v == x {
+		return true
+	}
+	if depth > 8 {
+		return false
+	}
+	switch y := v.(type) {
+	case *ssa.MakeInterface:
+		return derivesFromErr(y.X, x, depth+1)
+	case *ssa.ChangeInterface:
+		return derivesFromErr(y.X, x, depth+1)
+	case *ssa.Phi:
+		for _, op := range y.Edges {
+			if derivesFromErr(op, x, depth+1) {
+				return true
+			}
+		}
+	case *ssa.UnOp:
+		if y.Op == token.MUL {
+			// a result cell: any value stored into it
+			if al, ok := y.X.(*ssa.Alloc); ok {
+				// the check read the same cell and nothing was stored into it since
+				if xl, ok := x.(*ssa.UnOp); ok && xl.Op == token.MUL && xl.X == ssa.Value(al) {
+					clean := true
+					for _, ref := range *al.Referrers() {
+						if st, ok := ref.(*ssa.Store); ok && st.Addr == ssa.Value(al) && st.Block() != xl.Block() && st.Block() != y.Block() && xl.Block().Dominates(st.Block()) && st.Block().Dominates(y.Block()) {
+							clean = false
+						}
+						if st, ok := ref.(*ssa.Store); ok && st.Addr == ssa.Value(al) && st.Block() == y.Block() && st.Block() != xl.Block() {
+							// only stores that precede the load matter
+							for _, in := range y.Block().Instrs {
+								if in == ssa.Instruction(st) {
+									clean = false
+								}
+								if in == ssa.Instruction(y) {
+									break
+								}
+							}
+						}
+					}
+					if clean {
+						return true
+					}
+				}
+				for _, ref := range *al.Referrers() {
+					if st, ok := ref.(*ssa.Store); ok && st.Addr == ssa.Value(al) && derivesFromErr(st.Val, x, depth+1) {
+						return true
+					}
+				}
+			}
+		}
+	case *ssa.Call:
+		c := y.Call.StaticCallee()
+		if c == nil {
+			return false
+		}
+		switch c.Name() {
+		case "NewLispError":
+			return derivesFromErr(y.Call.Args[0], x, depth+1)
+		case "Errorf":
+			if len(y.Call.Args) == 2 {
+				for _, el := range sliceLiteralElems(y.Call.Args[1]) {
+					if derivesFromErr(el, x, depth+1) {
+						return true
+					}
+				}
+			}
+		}
+	}
+	return false
 }
 
 // ---------------------------------------------------------------------------
@@ -663,6 +773,8 @@ func checkC12(w *World, r *Report) {
 	r.rule("C12.unevaluated", "the argument slice handed to the macro function in the expansion loop is a projection (elements from index 1) of the call form: operands are passed unevaluated")
 	r.rule("C12.caller-scope", "the expansion replaces the form before the dispatch, in the caller's scope: macroexpand is called with the current scope, passes that scope to the macro test and to the lookup, and the scope is not changed between expansion and dispatch")
 	r.rule("C12.fixpoint", "macroexpand loops while the macro test holds on the updated form and returns that form; the macroexpand and quasiquoteexpand special forms return expansions unevaluated")
+	r.rule("C12.copy", "a function value rebuilt field by field from an existing one (with-meta and the like) accounts for every field of MalFunc, so the macro flag, the scope builder and the evaluator travel with the copy")
+	partialCopyRule(w, r, "C12.copy", "MalFunc")
 	r.rule("C12.flag", "defmacro binds the result of SetMacro (a value-receiver method setting IsMacro on its copy) applied to the evaluated function; fn builds IsMacro:false; the macro test is true only through GetMacro; the application region never looks at the macro flag")
 	r.rule("C12.names", "every symbol the quasiquote transform generates is a special form or a registered builtin, and the tags it tests are the ones the reader generates for ~ and ~@")
 	r.rule("C12.qq-dispatch", "quasiquote dispatches on exactly List, Vector, HashMap and Symbol (everything else returned literally); the vector case wraps the element loop with the vector constructor; splice-unquote is recognised only for list elements; the element loop runs from the last element to the first with the accumulator as last operand (order preserved)")
@@ -1477,6 +1589,16 @@ func okLocalStore(st *ssa.Store) bool {
 // user typed (watch expressions read from strings); the form it is handed by the evaluator never flows into
 // an evaluating call - evaluating (or macro-expanding) it a second time would duplicate its effects.
 func engineRule(w *World, r *Report, e *Engine) {
+	r.rule("C18.reentrant", "the repository's debugger engine holds no mutex while it calls into the evaluator (watch expressions, the expression prompt): EVAL calls the stepper again on the same goroutine, and a mutex is not reentrant")
+	nre := 0
+	for _, fn := range w.pkgFuncs("debugger") {
+		for _, lc := range e.callsUnderLock(fn, func(k string) bool { return true }) {
+			nre++
+			bad, why := w.reachesEval(lc.in)
+			r.check(!bad, "C18.reentrant", fn, "call "+describeCallInstr(e, lc.in)+" under "+lc.held.String(), lc.in.Pos(), "does not reach the evaluator", "a lock is held across a call that "+why+": the nested evaluation calls the stepper again and blocks on the same lock, so the debugged program never finishes")
+		}
+	}
+	r.add("C18.reentrant", nil, "calls made under a lock in package debugger", token.NoPos, "info", fmt.Sprintf("%d call(s) made while a lock is held", nre))
 	r.rule("C18.engine", "in package debugger the form handed to the Stepper callback never flows into the form argument of EVAL / REPL / Apply (the engine evaluates only expressions the user typed)")
 	var stepper *ssa.Function
 	for _, fn := range w.pkgFuncs("debugger") {
@@ -1746,4 +1868,289 @@ func canonForm(m *evalModel) string {
 		return canonVal(m.e, v)
 	}
 	return ""
+}
+
+
+// newLispErrorRule decides what NewLispError(obj, ast) returns on every path: either a copy of obj itself
+// (asserted to LispError, not looked up in its Unwrap chain) whose cursor alone is overwritten, or a new
+// LispError{err: obj}; in both cases the cursor is GetPosition(ast), stored unconditionally.
+func newLispErrorRule(w *World, r *Report, rule string) {
+	fn := w.Fn("lisperror", "NewLispError")
+	gp := w.Fn("lisperror", "GetPosition")
+	if fn == nil || gp == nil || len(fn.Params) != 2 {
+		r.undecided(rule, nil, "NewLispError", token.NoPos, "function no longer resolves")
+		return
+	}
+	obj, ast := ssa.Value(fn.Params[0]), ssa.Value(fn.Params[1])
+	isPos := func(v ssa.Value) bool {
+		c, ok := v.(*ssa.Call)
+		return ok && c.Call.StaticCallee() == gp && len(c.Call.Args) == 1 && c.Call.Args[0] == ast
+	}
+	// before(a, b): instruction a is executed on every path to b
+	before := func(a, b ssa.Instruction) bool {
+		if a.Block() == b.Block() {
+			for _, in := range a.Block().Instrs {
+				if in == a {
+					return true
+				}
+				if in == b {
+					return false
+				}
+			}
+		}
+		return a.Block().Dominates(b.Block())
+	}
+	n := 0
+	for _, blk := range fn.Blocks {
+		if len(blk.Instrs) == 0 || blk == fn.Recover {
+			continue
+		}
+		ret, ok := blk.Instrs[len(blk.Instrs)-1].(*ssa.Return)
+		if !ok || len(ret.Results) != 1 {
+			continue
+		}
+		n++
+		construct := "value returned by NewLispError"
+		ld, ok := ret.Results[0].(*ssa.UnOp)
+		var al *ssa.Alloc
+		if ok && ld.Op == token.MUL {
+			al, _ = ld.X.(*ssa.Alloc)
+		}
+		if al == nil {
+			r.bad(rule, fn, construct, ret.Pos(), "the returned error is not a local copy / literal built here: "+describeVal(nil, ret.Results[0], 0))
+			continue
+		}
+		var whole []*ssa.Store
+		fieldStores := map[string][]*ssa.Store{}
+		escapes := ""
+		for _, ref := range *al.Referrers() {
+			switch u := ref.(type) {
+			case *ssa.Store:
+				if u.Addr == ssa.Value(al) {
+					whole = append(whole, u)
+				} else {
+					escapes = "stored elsewhere"
+				}
+			case *ssa.FieldAddr:
+				for _, u2 := range *u.Referrers() {
+					if st, ok := u2.(*ssa.Store); ok && st.Addr == ssa.Value(u) {
+						fieldStores[fieldName(u.X.Type(), u.Field)] = append(fieldStores[fieldName(u.X.Type(), u.Field)], st)
+					}
+				}
+			case *ssa.UnOp, *ssa.DebugRef:
+			case ssa.CallInstruction:
+				escapes = "its address is handed to " + describeCallInstr(nil, u)
+			default:
+				escapes = "its address is used by " + ref.String()
+			}
+		}
+		if escapes != "" {
+			r.bad(rule, fn, construct, ret.Pos(), "the returned error is filled in by other code ("+escapes+"): it need not be the object that was given (an error found deeper in the Unwrap chain drops the outer errors)")
+			continue
+		}
+		problems := []string{}
+		if len(whole) > 0 {
+			for _, st := range whole {
+				src := st.Val
+				if ex, ok := src.(*ssa.Extract); ok {
+					src = ex.Tuple
+				}
+				ta, ok := src.(*ssa.TypeAssert)
+				if !ok || ta.X != obj {
+					problems = append(problems, "the copy is not the given object itself asserted to LispError")
+				}
+			}
+			for f := range fieldStores {
+				if f != "cursor" {
+					problems = append(problems, "field "+f+" of the existing error is overwritten")
+				}
+			}
+		} else {
+			okErr := false
+			for _, st := range fieldStores["err"] {
+				if st.Val == obj && before(st, ret) {
+					okErr = true
+				}
+			}
+			if !okErr {
+				problems = append(problems, "the new error does not store the object it was given")
+			}
+		}
+		okCur := false
+		for _, st := range fieldStores["cursor"] {
+			if isPos(st.Val) && before(st, ret) {
+				okCur = true
+			}
+		}
+		if !okCur {
+			problems = append(problems, "the cursor is not set to GetPosition(ast) on every path (an error keeps an earlier position)")
+		}
+		r.check(len(problems) == 0, rule, fn, construct, ret.Pos(), "the given object (copied when it is a LispError) re-positioned at the form", strings.Join(problems, "; "))
+	}
+	r.floor(rule, "returns of NewLispError", n, 2)
+}
+
+
+// errorReturns: like evalModel.returns, for any function whose last result is an error: (return, first result or nil, error result).
+func errorReturns(fn *ssa.Function) [][3]interface{} {
+	var out [][3]interface{}
+	for _, b := range fn.Blocks {
+		if len(b.Instrs) == 0 || b == fn.Recover {
+			continue
+		}
+		if ret, ok := b.Instrs[len(b.Instrs)-1].(*ssa.Return); ok && len(ret.Results) >= 1 {
+			last := resolveRet(ret.Results[len(ret.Results)-1])
+			var first ssa.Value
+			if len(ret.Results) > 1 {
+				first = resolveRet(ret.Results[0])
+			}
+			out = append(out, [3]interface{}{ret, first, last})
+		}
+	}
+	return out
+}
+
+
+// carriesExistingError: v is, positions or wraps an error value that existed before (the result of a call other
+// than an error constructor, a parameter, a variable) - as opposed to an error constructed on the spot.
+func carriesExistingError(v ssa.Value, depth int) bool {
+	if depth > 8 {
+		return true
+	}
+	switch y := v.(type) {
+	case *ssa.Const:
+		return false
+	case *ssa.MakeInterface:
+		return carriesExistingError(y.X, depth+1)
+	case *ssa.ChangeInterface:
+		return carriesExistingError(y.X, depth+1)
+	case *ssa.Phi:
+		for _, op := range y.Edges {
+			if carriesExistingError(op, depth+1) {
+				return true
+			}
+		}
+		return false
+	case *ssa.Call:
+		c := y.Call.StaticCallee()
+		if c == nil {
+			return true
+		}
+		switch c.Name() {
+		case "New":
+			return false
+		case "NewLispError", "NewGoError":
+			if !isErrorType(unboxed(y.Call.Args[len(y.Call.Args)-1]).Type()) && c.Name() == "NewGoError" {
+				return false
+			}
+			a := y.Call.Args[0]
+			if c.Name() == "NewGoError" {
+				a = y.Call.Args[1]
+			}
+			u := unboxed(a)
+			if _, isIface := u.Type().Underlying().(*types.Interface); !isIface {
+				return false // a non-error object (string, value) boxed into the error
+			}
+			return carriesExistingError(a, depth+1)
+		case "Errorf":
+			if len(y.Call.Args) == 2 {
+				for _, el := range sliceLiteralElems(y.Call.Args[1]) {
+					if u := unboxed(el); isErrorType(u.Type()) && carriesExistingError(u, depth+1) {
+						return true
+					}
+				}
+			}
+			return false
+		}
+		return true
+	}
+	return true
+}
+
+// partialCopyRule: a literal of the named value struct that takes two or more of its fields from the like-named
+// fields of one existing value is a modified copy of that value; it must then account for every field (copied or
+// set explicitly), otherwise the fields left out silently fall back to their zero value (a macro stops being a
+// macro, a function loses its scope builder).
+func partialCopyRule(w *World, r *Report, rule, typeName string) {
+	n := 0
+	for _, fn := range w.Funcs {
+		if isTestFunc(w, fn) || !runtimePkg(fnPkgPath(fn)) {
+			continue
+		}
+		for _, b := range fn.Blocks {
+			for _, in := range b.Instrs {
+				al, ok := in.(*ssa.Alloc)
+				if !ok {
+					continue
+				}
+				_, name, ok := w.namedStruct(al.Type().(*types.Pointer).Elem())
+				if !ok || name != typeName {
+					continue
+				}
+				st := al.Type().(*types.Pointer).Elem().Underlying().(*types.Struct)
+				set := map[string]bool{}
+				fromSrc := map[string]int{} // rendering of the source value -> number of fields copied from it
+				whole := false
+				for _, ref := range *al.Referrers() {
+					switch u := ref.(type) {
+					case *ssa.Store:
+						if u.Addr == ssa.Value(al) {
+							whole = true // initialised by a whole-struct copy: every field accounted for
+						}
+					case *ssa.FieldAddr:
+						fname := fieldName(u.X.Type(), u.Field)
+						for _, u2 := range *u.Referrers() {
+							s2, ok := u2.(*ssa.Store)
+							if !ok || s2.Addr != ssa.Value(u) {
+								continue
+							}
+							set[fname] = true
+							// value = src.fname ?
+							var srcBase ssa.Value
+							switch v := s2.Val.(type) {
+							case *ssa.Field:
+								if fieldName(v.X.Type(), v.Field) == fname {
+									srcBase = v.X
+								}
+							case *ssa.UnOp:
+								if fa, ok := v.X.(*ssa.FieldAddr); ok && v.Op == token.MUL && fieldName(fa.X.Type(), fa.Field) == fname {
+									srcBase = fa.X
+								}
+							}
+							if srcBase != nil {
+								if _, sname, ok := w.namedStruct(derefType(srcBase.Type())); ok && sname == typeName {
+									fromSrc[srcBase.Name()]++
+								}
+							}
+						}
+					}
+				}
+				best := 0
+				for _, c := range fromSrc {
+					if c > best {
+						best = c
+					}
+				}
+				if whole || best < 2 {
+					continue
+				}
+				n++
+				var missing []string
+				for i := 0; i < st.NumFields(); i++ {
+					if !set[st.Field(i).Name()] {
+						missing = append(missing, st.Field(i).Name())
+					}
+				}
+				r.check(len(missing) == 0, rule, fn, "modified copy of a "+typeName+" built field by field", al.Pos(), "every field copied or set", "the copy leaves out "+strings.Join(missing, ", ")+": the result silently loses that property of the original")
+			}
+		}
+	}
+	r.add(rule, nil, "field-by-field copies of "+typeName, token.NoPos, "info", fmt.Sprintf("%d literal(s) that copy two or more fields from one existing value", n))
+}
+
+func derefType(t types.Type) types.Type {
+	if p, ok := t.Underlying().(*types.Pointer); ok {
+		return p.Elem()
+	}
+	return t
 }
